@@ -29,7 +29,7 @@ MIRRORED = ('netFD.Close', 'listener.Close', 'listener.Accept', 'listener.parseF
             'connection.initFinalizer', 'connection.Detach', 'connection.register', 'connection.onPrepare', 'NewFDConnection',
             'server.Close', 'server.onAccept', 'newNetFD')
 EXPECTED_FP = os.path.join(common.VERIF, 'lib', 'expected_fp_c15.json')
-PROBES = {'rlimit-create-listener': 'F1'}   # scenarios that exist to exhibit a known finding
+PROBES = {'rlimit-create-listener': ('F1', 1), 'rlimit-manager-run': ('F2', 2)}   # scenario -> (known finding it exhibits, descriptors left)
 
 def fingerprint_changes():
     exp = json.load(open(EXPECTED_FP)) if os.path.exists(EXPECTED_FP) else {}
@@ -73,9 +73,9 @@ def classify(sc, v):
     left_census = sorted(set(sc['final'] or []) - set(sc['base'] or []))
     if v['left'] != '-' or left_census:
         # the probe of a known finding is exactly: one descriptor left, everything else in order
-        is_probe = (name in PROBES and len(left_census) == 1 and v['left'] == str(left_census[0]) and v['conform'] == 'ok'
-                    and v['owned'] == 'ok' and v['once'] == 'ok')
-        kind = 'probe' if is_probe else 'leak'
+        is_probe = (name in PROBES and len(left_census) == PROBES[name][1] and v['left'] == ','.join(str(x) for x in left_census)
+                    and v['conform'] == 'ok' and v['owned'] == 'ok' and v['once'] == 'ok')
+        kind = 'probe:' + PROBES[name][0] if is_probe else 'leak'
         out.append((kind, 'descriptor(s) left open after everything was closed: monitor left=%s, census extra=%s, scenario %s seed %d'
                     % (v['left'], left_census, name, sc['seed'])))
     if v['conform'] not in ('ok', 'skipped'):
@@ -222,7 +222,7 @@ def report(rep, problems, proof_broken, final):
     kf = common.known_findings(PROP)
     findings = {k.get('id'): k for k in kf if k.get('status') == 'finding'}
     spec = [p for p in problems if p[0] in ('spec', 'leak')]
-    probes = [p for p in problems if p[0] == 'probe']
+    probes = [p for p in problems if p[0].startswith('probe:')]
     conf = [p for p in problems if p[0] in ('conform', 'corpus')]
     harness = [p for p in problems if p[0] == 'harness']
     if spec:
@@ -241,13 +241,18 @@ def report(rep, problems, proof_broken, final):
     elif harness:
         kind, text, lines = harness[0]
         rep.violation('audit scenario cannot do its job on this tree (twice): %s (%d such)' % (text, len(harness)), lines, no_input=True, tag='harness-')
-    for kind, text, lines in probes[:1]:
-        if 'F1' in findings:
-            print('KNOWN-FINDING: property=%s %s' % (PROP, findings['F1']['what']))
+    seen = set()
+    for kind, text, lines in probes:
+        fid = kind.split(':')[1]
+        if fid in seen: continue
+        seen.add(fid)
+        if fid in findings:
+            print('KNOWN-FINDING: property=%s %s' % (PROP, findings[fid]['what']))
         else:
-            rep.violation(text + ' (CreateListener when File() fails)', lines)
-    if 'F1' in findings and not probes:
-        rep.notes.append('known finding F1 did not reproduce in this run (probe scenario rlimit-create-listener left nothing open)')
+            rep.violation(text, lines)
+    for fid in findings:
+        if fid not in seen:
+            rep.notes.append('known finding %s did not reproduce in this run (its probe scenario left nothing open)' % fid)
 
 def replay(rep, path):
     ok, o = common.lake_build(['npdriver'])
@@ -282,5 +287,5 @@ def replay(rep, path):
                 print('REPLAY: %s: %s' % (kind, text))
             if cl and not bad:
                 bad = True
-                rep.violation('replay reproduces: ' + cl[0][1], replay_lines(sc, b, v), no_input=cl[0][0] not in ('spec', 'leak', 'probe'))
+                rep.violation('replay reproduces: ' + cl[0][1], replay_lines(sc, b, v), no_input=not (cl[0][0] in ('spec', 'leak') or cl[0][0].startswith('probe')))
     return rep.finish(LEVEL)
